@@ -135,7 +135,7 @@ def ili_file(r, pool):
 
 
 def ilis_table(path):
-    conn = _real_connect(f'file:{path}?mode=ro', uri=True)
+    conn = _real_connect('file:' + __import__('urllib.parse').parse.quote(str(path)) + '?mode=ro', uri=True)
     try:
         return {i: [s, d] for i, s, d in conn.execute(
             'SELECT i.id, s.status, i.definition FROM ilis i JOIN ili_statuses s ON s.rowid = i.status_rowid')}
